@@ -89,6 +89,9 @@ def structural(rep, oid, fn, ok, detail=None, undecided_if_false=False, finding_
 
 def run_bounded(rep, name, tier, seed, budget_quick=25.0, budget_thorough=480.0):
     """bounded stand-in for property `name` with the oracle/cases of pyvc.oracles (never counted as proved)"""
+    if os.environ.get('VERIF_PROOF_ONLY'):
+        rep.notes.append('bounded stand-in skipped (VERIF_PROOF_ONLY: self-test of the proof obligations)')
+        return None
     from pyvc import bounded, oracles
     cases_fn = getattr(oracles, 'cases_' + name, None)
     if cases_fn is None or not hasattr(oracles, 'oracle_' + name):
@@ -139,7 +142,11 @@ def finish(rep, level='proof'):
         s = 'library contract (trusted): ' + l
         if s not in rep.trusted:
             rep.trusted.append(s)
-    code = core.finish(rep, level)
+    extra = None
+    if rep.tier == 'thorough' and not os.environ.get('VERIF_NO_SELFTEST') and not os.environ.get('VERIF_PROOF_ONLY'):
+        from props import selftest
+        extra = {'selftest': selftest.selftest(rep)}
+    code = core.finish(rep, level, extra)
     if code == 2 and not os.environ.get('VERIF_STRICT'):
         print('note: undecided obligations are not alarms; exit 0 (set VERIF_STRICT=1 for exit 2)')
         return 0
